@@ -98,9 +98,10 @@ fn run(scripts: &str, trace: &str, opts: &Opts) -> Res<()> {
             match op {
                 "Append" => {
                     let tok = gi(step, "tok") as u64;
+                    // res is the returned sequence number; 0 (never a valid one) when append failed
                     res = match wal.as_mut().unwrap().append(entry_for(tok)) {
                         Ok(n) => json!(n.min(CAP)),
-                        Err(e) => json!(class(&e)),
+                        Err(_) => json!(0),
                     };
                 }
                 "Flush" => {
